@@ -13,6 +13,10 @@ Definition time_dom (t : time) : bool :=
   (-62167219200 <=? local_s)%Z && (local_s <? 253402300800)%Z
   && (t_off t mod 60 =? 0)%Z && (-86400 <? t_off t)%Z && (t_off t <? 86400)%Z.
 
+(* the bytes Format(RFC3339Nano) can produce *)
+Definition time_alphabet : str :=
+  [x30; x31; x32; x33; x34; x35; x36; x37; x38; x39; x54; x3a; x2e; x5a; x2b; x2d].
+
 Definition dom_pred (p : pred) : bool :=
   wf_pred p && match panchor p with None => true | Some t => time_dom t end.
 
@@ -30,9 +34,12 @@ Definition dom_object (o : object) : bool :=
   | OInvalid => false
   end.
 
-(* in a triple the predicate id must not contain a space (the object split is searched by a regular expression) *)
+(* in a triple the predicate id must not contain a space (the object split is searched by a regular expression that
+   looks for ']' blanks '/'), and the subject type must not contain a form feed (NewType rejects space, tab, newline
+   and CR only; the subject split looks for '>' blanks double-quote and form feed is a blank of Go's regexp class s) *)
 Definition dom_triple (t : triple) : bool :=
-  dom_node (subj t) && dom_pred (tpred t) && negb (memb c_space (pid (tpred t))) && dom_object (tobj t).
+  dom_node (subj t) && negb (memb x0c (ntype (subj t)))
+  && dom_pred (tpred t) && negb (memb c_space (pid (tpred t))) && dom_object (tobj t).
 
 (* in the line-oriented graph format no component may contain a newline: node ids and text literals are the only
    components printed raw (types cannot contain one, predicate ids are quoted, numbers and blobs are digits) *)
